@@ -17,7 +17,7 @@ EXPLANATION = (
     "the error types' own code (ArgParseError, ArgParseCauseBuffer) has every potential-panic site discharged by the buffer invariant len <= 128 (reviewed table); "
     "C20.2 the 128-byte cause buffer cannot overflow: the copy in write_str is dominated by len(s) <= CAP - self.len, both constructors return the fixed overflow error on failure, only write_str (and constant initialisers <= CAP) ever set the length, "
     "and the overflow message's declared length does not exceed its text; C20.3 every failure is a value: the parsers call neither exit nor panic, and -h/--help arms return an error value built from the help printer; "
-    "C20.4 sibling agreement between parser and help text: the option literals the generated decision tree accepts are exactly the option names its help printer lists plus -h/--help, and subcommand parsers accept every command name visible in the help text. "
+    "C20.4 sibling agreement between parser and help text: the option literals the generated decision tree accepts are exactly the option names its help printer lists plus -h/--help, and subcommand parsers accept every command name visible in the help text; C20.5 every argument is consumed or rejected: a derived ArgParse parser builds its Ok result only on a path on which args.next() returned None. "
     "NOT decided: round-tripping for every value assignment and option order, acceptance of exactly the declared grammar beyond the literal sets, user FromStr impls (outside; their errors are routed into the cause buffer).")
 ASSUMPTIONS = ["the family of derived types = the types in tiny-cli/tests/derive_test.rs", "invariant of ArgParseCauseBuffer: len <= 128 (established by C20.2)"]
 
@@ -84,6 +84,13 @@ def literals(ctx):
     return out
 
 
+def mentions_call(e, ctx, call_bbs):
+    for x in walk_deep(e, ctx.prov, limit=200):
+        if x[0] == "call" and x[3] in call_bbs:
+            return True
+    return False
+
+
 def help_text(prog, printer_ty):
     texts = []
     for p, f in prog.fns.items():
@@ -122,6 +129,17 @@ def run_d(ck, prog):
         gen = {q for q in cg.reach([p]) if q in prog.fns and prog.fns[q]["crate"] == "derive_test"}
         badc = sorted({c for q in gen for c in cg.callees.get(q, ()) if c.startswith(("rusl::process::exit", "tiny_std::process::exit", "core::panicking::")) or c.endswith(("::unwrap", "::expect"))})
         ck.ob("C20.3", f"{short}|{p.split('::')[-1]}|errors-are-values", not badc, fn=p, detail=f"generated parser code calls {badc}: failures must be returned as ArgParseError values")
+        # C20.5: every argument is consumed or rejected: an ArgParse parser reports success only after args.next() returned None
+        if p.endswith("::arg_parse"):
+            okb = [b["id"] for b in fn["blocks"] if b["id"] in ctx.cfg.live_blocks() and not b.get("cleanup") and
+                   any(s2["k"] == "assign" and s2["dst"]["l"] == 0 and not s2["dst"].get("p") and s2["rv"]["k"] == "agg" and s2["rv"].get("variant") == "Ok" for s2 in b["stmts"])]
+            nexts = [bb for bb, t in ctx.cfg.calls(lambda t: (t.get("callee") or "").endswith("Iterator::next")) if ctx.cfg.in_cycle(bb)]
+            if ck.ob("C20.5", f"{short}|anchor|loop-and-success", len(okb) >= 1 and len(nexts) >= 1, fn=p, detail=f"success returns {len(okb)}, args.next() calls in the loop {len(nexts)}"):
+                for ob in okb:
+                    facts = panics.dominating_facts(ctx, ob)
+                    drained = any(f[0] == "variant" and f[2] == "None" and mentions_call(f[1], ctx, nexts) for f in facts)
+                    ck.ob("C20.5", f"{short}|success-only-after-all-arguments-were-read", drained, fn=p, site=ctx.site(ob),
+                          detail="the parser can return Ok without having read the arguments to the end (the loop is left early): trailing arguments - options after a subcommand, misspelt flags - are silently ignored instead of parsed or rejected")
         # C20.4: literal sets vs help text
         lits = literals(ctx)
         n_lit += len(lits)
